@@ -1131,6 +1131,14 @@ func ruleDecorAlwaysCalled(w *World, r *Report, pfx string) {
 			if _, ok := b.Instrs[len(b.Instrs)-1].(*ssa.Return); ok {
 				bad = orStr(bad, "the decorator loop can return early")
 			}
+			// a break: an edge that leaves the loop from anywhere but the range test
+			if b != l.Header {
+				for _, sc := range b.Succs {
+					if !l.Blocks[sc] {
+						bad = orStr(bad, "the decorator loop can be left early (break): the remaining decorators of the group are not called, a synchronised one among them blocks its column's distributor and every other bar")
+					}
+				}
+			}
 		}
 	}
 	r.Check(bad == "", rule, "decorator-writing loop", w.instrPos(decorCall), "Decor dominates every latch, no early exit", bad)
